@@ -3,12 +3,63 @@ from .. import codec_corr as cc
 from . import _codec
 
 
+def huge_payload_roundtrips(ctx, classes, n_schema, gen):
+    """No width of the format limits a record set to a 'reasonable' size: one instance per flavour (legacy / compact) whose
+    bytes/records field holds 2^27 + 3 bytes (beyond any 1 MiB / 64 MiB / 100 MiB / 128 MiB constant an implementation might
+    pick), encoded and decoded on the implementation only."""
+    import io
+
+    from kio.serial import entity_reader, entity_writer
+    from ..values import describe, to_py
+
+    bad = []
+    done = {True: False, False: False}
+    size = 2**27 + 3
+    payload = None
+    for idx in range(n_schema):
+        cls = classes[idx]
+        flex = bool(cls.__flexible__)
+        if done[flex]:
+            continue
+        descs = describe(cls)
+        pos = next((k for k, d in enumerate(descs) if d.kafka in ("bytes", "records") and not d.array and d.tag is None and d.ent is None), None)
+        if pos is None:
+            continue
+        done[flex] = True
+        if payload is None:
+            payload = (bytes(range(256)) * (size // 256 + 1))[:size]
+        v = gen.entity(cls)
+        v[1][pos] = ("bytes", b"")
+        inst = to_py(cls, v)
+        import dataclasses
+        inst = dataclasses.replace(inst, **{descs[pos].name: (type(getattr(inst, descs[pos].name)) if getattr(inst, descs[pos].name) is not None else bytes)(payload)})
+        name = _codec.cls_name(classes, idx)
+        try:
+            buf = io.BytesIO()
+            entity_writer(cls)(buf, inst)
+            n = buf.tell()
+            buf.write(b"\xde\xad")
+            buf.seek(0)
+            back = entity_reader(cls)(buf)
+            if back != inst or buf.tell() != n or buf.read() != b"\xde\xad":
+                bad.append({"class": name, "payload_bytes": size, "what": "decode(encode(x)) != x or the decoder did not consume exactly the encoding"})
+        except Exception as e:  # noqa
+            bad.append({"class": name, "payload_bytes": size, "what": f"raised {cc.err_name(e)}: {str(e)[:120]}"})
+        if all(done.values()):
+            break
+    return bad
+
+
 def run(ctx):
     classes, n_schema, gen = _codec.setup(ctx)
     per_class = 3 if ctx["tier"] == "quick" else 40
     cases = _codec.structured(ctx, classes, n_schema, gen, per_class)
     failing, errors = cc.run_coq_cases(ctx["build"], "C01", cases)
     viol = []
+    huge = huge_payload_roundtrips(ctx, classes, n_schema, gen)
+    if huge:
+        viol.append({"kind": "property", "what": "an instance with a very large byte-string field does not round-trip",
+                     "failing_input_found": True, "n_failing": len(huge), "cases": huge[:3]})
     prop_fail = [i for i, c in enumerate(cases) if not c["c01_ok"]]
     if errors:
         viol.append({"kind": "correspondence", "what": "model evaluation failed", "detail": errors[:3]})
@@ -32,7 +83,7 @@ def run(ctx):
         "rule": "per class, generated typed canonical instances (null/empty/one/many arrays, null/non-null "
                 "nullable fields, default/non-default tagged fields, boundary primitives); a case is non-trivial "
                 "always (every instance exercises a full encode+decode); distinct by (class, encoded bytes)",
-        "generator_stats": gen.stats, "distribution": _codec.distribution(cases, classes),
+        "huge_payload_roundtrips": "2 instances with a 2^27+3 byte field (legacy and compact)", "generator_stats": gen.stats, "distribution": _codec.distribution(cases, classes),
         "samples": [_codec.describe_case(classes, c) for c in cases[:2]],
         "property_failures_on_implementation": len(prop_fail), "correspondence_disagreements": len(failing),
     }
